@@ -108,6 +108,49 @@ theorem cache_entry_complete_step (feature : Bool) (r : Rev) (f : Faults) (c : C
   · rw [h1] at he; cases he
   · rw [he'] at he; cases he; exact hok
 
+/-! ### schedules: reconciles sharing the cache do not interfere -/
+
+/-- A reconcile touches no cache path but the two of its own revision (that of its name,
+that of its source), under every fault plan. -/
+theorem reconcile_frame (fixed feature : Bool) (r : Rev) (f : Faults) (c : Cache) (st : RevSt) (k : String)
+    (h1 : k ≠ r.key) (h2 : k ≠ r.id) : (recStep fixed feature r f c st).1 k = c k :=
+  recStep_frame fixed feature r f c st k h1 h2
+
+/-- Reconciles of two revisions whose cache paths are disjoint commute: either order gives
+the same outcomes, the same revision states and the same cache.  (`FsPackageCache`
+serialises `Get`/`Store`/`Delete` with a mutex and controller-runtime never reconciles one
+revision concurrently with itself, so every concurrent schedule of two reconciles is
+equivalent to one of the two sequential orders.) -/
+theorem reconciles_commute (fixed feature : Bool) (r1 r2 : Rev) (f1 f2 : Faults) (c : Cache) (st1 st2 : RevSt)
+    (d1 : r1.key ≠ r2.key) (d2 : r1.key ≠ r2.id) (d3 : r1.id ≠ r2.key) (d4 : r1.id ≠ r2.id) :
+    (recStep fixed feature r1 f1 c st1).2 = (recStep fixed feature r1 f1 (recStep fixed feature r2 f2 c st2).1 st1).2 ∧
+    (recStep fixed feature r2 f2 c st2).2 = (recStep fixed feature r2 f2 (recStep fixed feature r1 f1 c st1).1 st2).2 ∧
+    ∀ k, (recStep fixed feature r2 f2 (recStep fixed feature r1 f1 c st1).1 st2).1 k =
+         (recStep fixed feature r1 f1 (recStep fixed feature r2 f2 c st2).1 st1).1 k := by
+  have fr1 := fun k => recStep_frame fixed feature r1 f1 c st1 k
+  have fr2 := fun k => recStep_frame fixed feature r2 f2 c st2 k
+  have l1 := recStep_local fixed feature r1 f1 c (recStep fixed feature r2 f2 c st2).1 st1
+    (fr2 r1.id d3 d4).symm (fr2 r1.key d1 d2).symm
+  have l2 := recStep_local fixed feature r2 f2 c (recStep fixed feature r1 f1 c st1).1 st2
+    (fr1 r2.id (Ne.symm d2) (Ne.symm d4)).symm (fr1 r2.key (Ne.symm d1) (Ne.symm d3)).symm
+  refine ⟨l1.1, l2.1, ?_⟩
+  intro k
+  by_cases h1 : k = r1.key
+  · subst h1
+    rw [recStep_frame fixed feature r2 f2 _ st2 _ d1 d2]
+    exact l1.2.2
+  · by_cases h2 : k = r1.id
+    · subst h2
+      rw [recStep_frame fixed feature r2 f2 _ st2 _ d3 d4]
+      exact l1.2.1
+    · rw [recStep_frame fixed feature r1 f1 _ st1 k h1 h2]
+      by_cases h3 : k = r2.key
+      · subst h3; exact l2.2.2.symm
+      · by_cases h4 : k = r2.id
+        · subst h4; exact l2.2.1.symm
+        · rw [recStep_frame fixed feature r2 f2 _ st2 k h3 h4, recStep_frame fixed feature r2 f2 _ st2 k h3 h4]
+          exact fr1 k h1 h2
+
 /-! ### gates -/
 
 /-- A package whose stream does not parse, has no or several meta objects, a meta of
